@@ -4,12 +4,16 @@ import AmVerif.Proofs.Spec
   Proofs about `AmVerif.Model.Local` (which ops a local editing call appends) read through
   `AmVerif.Model.Spec` (what an op set shows): helper lemmas for C03 / C04.
 
-  §1  appending one op to an op list: `visible`, `counterValue`, `entryOf`, registers.
-  §2  `resolveAction`, and the shape of the op produced by `localMapOp` / `localListOp`.
-  §3  failure characterisations.
-  §4  map effects.
-  §5  RGA: fuel, insertion.
-  §6  transaction ids (C04).
+  §1  appending one op to an op list: `visible`, `counterValue`, `entryOf`, registers (`regOps`).
+  §2  `resolveAction`, and the op `localMapOp` / `localListOp` produce (`emitOp`).
+  §3  failure characterisations of every call.
+  §4  effects of an appended op on a register (`TxOp`); map put / delete / increment / put_object.
+  §5  RGA: fuel suffices under `RefsSmaller`; a non-insert op leaves the order alone.
+  §6  metadata of the committed change (C04): start op, numbering of ops, seq, deps.
+  §7  list / text elements: update, delete, increment.
+  §8  RGA: inserting an element (`rgaFrom_insert`), registers and visible elements after an insert.
+  Continued in `Proofs/LocalSeq.lean` (`localInsert`, positions, no id twice in the order) and
+  `Proofs/LocalSplice.lean` (`localSpliceText`).
 -/
 namespace AmVerif.Crdt
 open AmVerif
@@ -257,7 +261,7 @@ theorem emitOp_error_iff {ops reg : List Op} {a : Action} {mk : Action → List 
       constructor
       · intro he; cases he; exact ⟨rfl, ⟨n, rfl⟩, h'⟩
       · rintro ⟨rfl, _, _⟩; rfl
-    · simp only [h, if_false]
+    · simp only [h]
       have h' : ¬ ∀ x ∈ reg, x.isCounterPut = false := by simpa using h
       constructor
       · intro he; cases he
@@ -1180,7 +1184,7 @@ theorem emitOp_ok_nil_iff {ops reg : List Op} {a : Action} {mk : Action → List
         intro x hx; rw [hx] at hg; simp at hg; subst hg; exact absurd hx h2
       · subst h2; simp [h1]
       · have : reg ≠ [] := by intro h; simp [h] at hg
-        simp [h1, h2, this]
+        simp [h1, this]
         intro x hx; rw [hx] at hg; simp at hg; subst hg; exact absurd hx h2
   | del => rw [emitOp_del]; by_cases h : reg = [] <;> simp [h]
   | make ty => simp [emitOp_make]
@@ -1271,7 +1275,7 @@ theorem filter_length_le {α : Type} {p q : α → Bool} {l : List α}
     have hx := hpq x List.mem_cons_self
     cases hp : p x <;> cases hq : q x <;> simp [hp, hq] <;> first | omega | simp_all
 
-theorem filter_length_lt {α : Type} {p q : α → Bool} {l : List α} {c : α}
+theorem filter_length_lt_local {α : Type} {p q : α → Bool} {l : List α} {c : α}
     (hpq : ∀ x ∈ l, p x = true → q x = true) (hc : c ∈ l) (hq : q c = true) (hp : p c = false) :
     (l.filter p).length < (l.filter q).length := by
   induction l with
@@ -1315,7 +1319,7 @@ theorem above_child {ops : List Op} (h : RefsSmaller ops) {obj : ObjId} {p : Key
   cases p with
   | elem e =>
     have hec := h.lt hco hci hck
-    exact filter_length_lt (fun x _ hx => OpId.lt_trans hec hx) hco hec (OpId.lt_irrefl _)
+    exact filter_length_lt_local (fun x _ hx => OpId.lt_trans hec hx) hco hec (OpId.lt_irrefl _)
   | head => exact hlt
   | map k => exact hlt
 
@@ -1534,5 +1538,874 @@ theorem utf8Chars_ascii : ∀ (bs : Bytes), (∀ b ∈ bs, b.toNat < 0x80) → u
     rw [utf8Chars]
     simp only [hb, if_true, List.take_zero, List.drop_zero, List.map_cons]
     rw [utf8Chars_ascii rest (fun x hx => h x (List.mem_cons_of_mem _ hx))]
+
+
+/-! ## §6 metadata of the change a transaction commits (C04) -/
+
+/-! ### start op -/
+
+theorem foldl_max_ge_init {α : Type} (f : α → Nat) (l : List α) (init : Nat) :
+    init ≤ l.foldl (fun m c => max m (f c)) init := by
+  induction l generalizing init with
+  | nil => exact Nat.le_refl _
+  | cons x xs ih => exact Nat.le_trans (Nat.le_max_left _ _) (ih _)
+
+theorem foldl_max_ge {α : Type} (f : α → Nat) (l : List α) (init : Nat) {c : α} (hc : c ∈ l) :
+    f c ≤ l.foldl (fun m c => max m (f c)) init := by
+  induction l generalizing init with
+  | nil => cases hc
+  | cons x xs ih =>
+    rcases List.mem_cons.mp hc with rfl | hc
+    · exact Nat.le_trans (Nat.le_max_right _ _) (foldl_max_ge_init f xs _)
+    · exact ih _ hc
+
+theorem Doc.maxOp_ge (d : Doc) {c : Change} (hc : c ∈ d.applied) :
+    c.startOp + c.ops.length - 1 ≤ d.maxOp :=
+  foldl_max_ge (fun c => c.startOp + c.ops.length - 1) d.applied 0 hc
+
+/-! ### numbering of ops -/
+
+/-- the ids `start@actor, (start+1)@actor, …` (`n` of them) -/
+def idsFrom (actor : Bytes) : Nat → Nat → List OpId
+  | _, 0 => []
+  | s, n + 1 => ⟨s, actor⟩ :: idsFrom actor (s + 1) n
+
+/-- the ops carry consecutive ids of one actor starting at `start` -/
+def Numbered (actor : Bytes) (start : Nat) (l : List Op) : Prop :=
+  l.map (·.id) = idsFrom actor start l.length
+
+instance (actor : Bytes) (start : Nat) (l : List Op) : Decidable (Numbered actor start l) := by
+  unfold Numbered; infer_instance
+
+/-- the ops of a change are numbered from its start op with its actor (what the change encoding
+    stores: only `startOp` and the actor; ids are implicit) -/
+def OpsNumbered (c : Change) : Prop := Numbered c.actor c.startOp c.ops
+
+instance (c : Change) : Decidable (OpsNumbered c) := by unfold OpsNumbered; infer_instance
+
+theorem idsFrom_add (actor : Bytes) (s n m : Nat) :
+    idsFrom actor s (n + m) = idsFrom actor s n ++ idsFrom actor (s + n) m := by
+  induction n generalizing s with
+  | zero => simp [idsFrom]
+  | succ n ih =>
+    rw [Nat.add_right_comm, idsFrom, idsFrom, ih (s + 1)]
+    simp [Nat.add_assoc, Nat.add_comm 1 n]
+
+theorem mem_idsFrom {actor : Bytes} {s n : Nat} {x : OpId} :
+    x ∈ idsFrom actor s n ↔ x.actor = actor ∧ s ≤ x.ctr ∧ x.ctr < s + n := by
+  induction n generalizing s with
+  | zero =>
+    simp only [idsFrom, List.not_mem_nil, false_iff]
+    omega
+  | succ n ih =>
+    simp only [idsFrom, List.mem_cons, ih]
+    constructor
+    · rintro (rfl | ⟨h1, h2, h3⟩)
+      · exact ⟨rfl, Nat.le_refl _, by show s < s + (n + 1); omega⟩
+      · exact ⟨h1, by omega, by omega⟩
+    · rintro ⟨h1, h2, h3⟩
+      by_cases h : x.ctr = s
+      · left; cases x; simp_all
+      · right; exact ⟨h1, by omega, by omega⟩
+
+theorem Numbered.nil (actor : Bytes) (s : Nat) : Numbered actor s [] := rfl
+
+theorem Numbered.append {actor : Bytes} {s : Nat} {l₁ l₂ : List Op} (h₁ : Numbered actor s l₁)
+    (h₂ : Numbered actor (s + l₁.length) l₂) : Numbered actor s (l₁ ++ l₂) := by
+  unfold Numbered at *
+  rw [List.map_append, List.length_append, idsFrom_add, h₁, h₂]
+
+theorem Numbered.singleton {actor : Bytes} {s : Nat} {o : Op} (h : o.id = ⟨s, actor⟩) :
+    Numbered actor s [o] := by
+  simp [Numbered, idsFrom, h]
+
+theorem Numbered.mem {actor : Bytes} {s : Nat} {l : List Op} (h : Numbered actor s l) {o : Op} (ho : o ∈ l) :
+    o.id.actor = actor ∧ s ≤ o.id.ctr ∧ o.id.ctr < s + l.length := by
+  have : o.id ∈ l.map (·.id) := List.mem_map.mpr ⟨o, ho, rfl⟩
+  rw [h] at this
+  exact mem_idsFrom.mp this
+
+/-- "a start op greater than every op counter in the changes it has applied" -/
+theorem beginTx_startOp_gt (d : Doc) (actor : Bytes) {c : Change} (hc : c ∈ d.applied) {o : Op}
+    (_ho : o ∈ c.ops) (hw : o.id.ctr < c.startOp + c.ops.length) : o.id.ctr < (d.beginTx actor).startOp := by
+  have := d.maxOp_ge hc
+  show o.id.ctr < d.maxOp + 1
+  omega
+
+theorem beginTx_startOp_gt_of_numbered (d : Doc) (actor : Bytes) (hn : ∀ c ∈ d.applied, OpsNumbered c) :
+    ∀ o ∈ d.ops, o.id.ctr < (d.beginTx actor).startOp := by
+  intro o ho
+  obtain ⟨c, hc, hoc⟩ := List.mem_flatMap.mp ho
+  exact beginTx_startOp_gt d actor hc hoc ((hn c hc).mem hoc).2.2
+
+
+/-! ### every call hands the transaction consecutively numbered ops -/
+
+/-- the id the transaction gives to its next op -/
+theorem Tx.nextId_eq (t : Tx) (n : Nat) : t.nextId n = ⟨t.startOp + t.pending.length + n, t.actor⟩ := rfl
+
+theorem emitOp_numbered {ops reg : List Op} {a : Action} {mk : Action → List Op → Op} {t : Tx} {l : List Op}
+    (hmk : ∀ act preds, (mk act preds).id = t.nextId) (h : emitOp ops reg a mk = .ok l) :
+    Numbered t.actor (t.startOp + t.pending.length) l := by
+  unfold emitOp at h
+  cases hr : resolveAction ops reg a with
+  | none => rw [hr] at h; cases h; exact Numbered.nil _ _
+  | some p =>
+    obtain ⟨act, preds⟩ := p
+    rw [hr] at h
+    simp only at h
+    (repeat' split at h) <;> first | (cases h; done) | (cases h; exact Numbered.singleton (hmk _ _))
+
+theorem localPut_numbered {e : Enc} {ops : List Op} {t : Tx} {obj : ObjId} {prop : Sum Bytes Nat}
+    {a : Action} {ck : Bool} {l : List Op} (h : localPut e ops t obj prop a ck = .ok l) :
+    Numbered t.actor (t.startOp + t.pending.length) l := by
+  cases hty : objType ops obj with
+  | none => rw [localPut_of_none hty] at h; cases h
+  | some ty =>
+    rw [localPut_of_type hty] at h
+    cases prop with
+    | inl k =>
+      simp only at h
+      split at h
+      · cases h
+      · rw [localMapOp_eq] at h
+        exact emitOp_numbered (fun _ _ => rfl) h
+    | inr i =>
+      simp only at h
+      split at h
+      · cases h
+      · rw [localListOp_eq] at h
+        split at h
+        · cases h
+        · split at h
+          · cases h
+          · exact emitOp_numbered (fun _ _ => rfl) h
+
+theorem localInsert_numbered {e : Enc} {ops : List Op} {t : Tx} {obj : ObjId} {index : Nat}
+    {a : Action} {l : List Op} (h : localInsert e ops t obj index a = .ok l) :
+    Numbered t.actor (t.startOp + t.pending.length) l := by
+  unfold localInsert at h
+  split at h
+  · cases h
+  · split at h
+    · cases h
+    · split at h
+      · cases h
+      · cases h; exact Numbered.singleton rfl
+
+theorem chainInserts_numbered (t : Tx) (obj : ObjId) :
+    ∀ (ps : List Bytes) (key : Key) (n : Nat),
+      Numbered t.actor (t.startOp + t.pending.length + n) (chainInserts t obj ps key n)
+  | [], _, _ => Numbered.nil _ _
+  | p :: ps, key, n => by
+    have ih := chainInserts_numbered t obj ps (.elem (t.nextId n)) (n + 1)
+    show Numbered _ _ ([_] ++ chainInserts t obj ps _ (n + 1))
+    exact Numbered.append (Numbered.singleton rfl) (by simpa [Nat.add_assoc] using ih)
+
+theorem chainInserts_length (t : Tx) (obj : ObjId) :
+    ∀ (ps : List Bytes) (key : Key) (n : Nat), (chainInserts t obj ps key n).length = ps.length
+  | [], _, _ => rfl
+  | p :: ps, key, n => by simp [chainInserts, chainInserts_length t obj ps]
+
+theorem deleteLoop_numbered (e : Enc) (isText : Bool) (t : Tx) (obj : ObjId) :
+    ∀ (fuel : Nat) (ops : List Op) (di dd del : Nat) (acc : List Op),
+      Numbered t.actor (t.startOp + t.pending.length) acc →
+      Numbered t.actor (t.startOp + t.pending.length) (deleteLoop e isText t obj fuel ops di dd del acc)
+  | 0, _, _, _, _, _, h => h
+  | fuel + 1, ops, di, dd, del, acc, h => by
+    unfold deleteLoop
+    split
+    · exact h
+    · split
+      · exact h
+      · simp only
+        split
+        · exact deleteLoop_numbered e isText t obj fuel _ _ _ _ _ h
+        · exact deleteLoop_numbered e isText t obj fuel _ _ _ _ _
+            (Numbered.append h (Numbered.singleton rfl))
+
+theorem localSpliceText_numbered {e : Enc} {ops : List Op} {t : Tx} {obj : ObjId} {index del : Nat}
+    {text : Bytes} {l : List Op} (h : localSpliceText e ops t obj index del text = .ok l) :
+    Numbered t.actor (t.startOp + t.pending.length) l := by
+  rw [localSpliceText_eq] at h
+  unfold spliceWith at h
+  split at h
+  · cases h
+  · split at h
+    · cases h
+    · split at h
+      · cases h
+      · rename_i key idx _
+        simp only at h
+        cases h
+        have h1 := chainInserts_numbered t obj (utf8Chars text) key 0
+        refine Numbered.append h1 ?_
+        have := deleteLoop_numbered e true { t with pending := t.pending ++ chainInserts t obj (utf8Chars text) key 0 }
+          obj (del + 1) (ops ++ chainInserts t obj (utf8Chars text) key 0)
+          (idx + ((utf8Chars text).map (width e)).foldl (· + ·) 0) 0 del [] (Numbered.nil _ _)
+        simpa [Nat.add_assoc] using this
+
+
+/-- the result of one editing call of the model, evaluated on applied ++ pending -/
+inductive LocalCall (e : Enc) (applied : List Op) (t : Tx) : Except EditErr (List Op) → Prop
+  | put (obj : ObjId) (prop : Sum Bytes Nat) (a : Action) (ck : Bool) :
+      LocalCall e applied t (localPut e (applied ++ t.pending) t obj prop a ck)
+  | insert (obj : ObjId) (index : Nat) (a : Action) :
+      LocalCall e applied t (localInsert e (applied ++ t.pending) t obj index a)
+  | spliceText (obj : ObjId) (index del : Nat) (text : Bytes) :
+      LocalCall e applied t (localSpliceText e (applied ++ t.pending) t obj index del text)
+
+/-- the transactions reachable from `t₀` by a sequence of editing calls (failed ones included) -/
+inductive TxRun (e : Enc) (applied : List Op) (t₀ : Tx) : Tx → Prop
+  | start : TxRun e applied t₀ t₀
+  | step {t : Tx} {res : Except EditErr (List Op)} :
+      TxRun e applied t₀ t → LocalCall e applied t res → TxRun e applied t₀ (t.after res)
+
+theorem LocalCall.numbered {e : Enc} {applied : List Op} {t : Tx} {res : Except EditErr (List Op)}
+    (h : LocalCall e applied t res) {l : List Op} (hl : res = .ok l) :
+    Numbered t.actor (t.startOp + t.pending.length) l := by
+  cases h with
+  | put obj prop a ck => exact localPut_numbered hl
+  | insert obj index a => exact localInsert_numbered hl
+  | spliceText obj index del text => exact localSpliceText_numbered hl
+
+/-- the pending ops of a transaction are numbered `startOp, startOp + 1, …` with its actor -/
+theorem TxRun.numbered {e : Enc} {applied : List Op} {t₀ t : Tx} (h : TxRun e applied t₀ t)
+    (h₀ : Numbered t₀.actor t₀.startOp t₀.pending) :
+    t.actor = t₀.actor ∧ t.startOp = t₀.startOp ∧ Numbered t.actor t.startOp t.pending := by
+  induction h with
+  | start => exact ⟨rfl, rfl, h₀⟩
+  | @step t res _ hc ih =>
+    obtain ⟨ha, hs, hn⟩ := ih
+    cases hres : res with
+    | error err => exact ⟨ha, hs, hn⟩
+    | ok l =>
+      refine ⟨ha, hs, ?_⟩
+      show Numbered t.actor t.startOp (t.pending ++ l)
+      exact Numbered.append hn (hc.numbered hres)
+
+/-! ### sequence number -/
+
+theorem foldl_max_range' (m s n : Nat) :
+    (List.range' s (n + 1)).foldl max m = max m (s + n) := by
+  induction n generalizing m s with
+  | zero => simp [List.range']
+  | succ n ih =>
+    rw [List.range'_succ, List.foldl_cons, ih]
+    omega
+
+/-- `seqForActor` = number of applied changes of the actor, when these carry 1, 2, …, n -/
+theorem seqForActor_eq_length (d : Doc) (a : Bytes)
+    (hc : (d.applied.filter (fun c => c.actor == a)).map (·.seq) =
+      List.range' 1 (d.applied.filter (fun c => c.actor == a)).length) :
+    d.seqForActor a = (d.applied.filter (fun c => c.actor == a)).length := by
+  unfold Doc.seqForActor
+  have : ∀ (l : List Change) (m : Nat), l.foldl (fun m c => max m c.seq) m = (l.map (·.seq)).foldl max m := by
+    intro l
+    induction l with
+    | nil => intro m; rfl
+    | cons x xs ih => intro m; simp [ih]
+  rw [this, hc]
+  cases hn : (d.applied.filter (fun c => c.actor == a)).length with
+  | zero => rfl
+  | succ n => rw [foldl_max_range']; omega
+
+/-! ### dependencies -/
+
+theorem insertHash_eq_insertKey (h : Hash) (l : List Hash) : insertHash h l = insertKey h l := by
+  induction l with
+  | nil => rfl
+  | cons x xs ih => simp only [insertHash, insertKey, ih]
+
+theorem sortHashes_sorted_local (hs : List Hash) : (sortHashes hs).Pairwise (fun a b => bytesLt a b = true) := by
+  induction hs with
+  | nil => exact List.Pairwise.nil
+  | cons x xs ih =>
+    show (insertHash x (sortHashes xs)).Pairwise _
+    rw [insertHash_eq_insertKey]
+    exact insertKey_sorted x ih
+
+theorem heads_nodup (d : Doc) : d.heads.Nodup :=
+  List.Pairwise.imp (fun {a b} h he => by rw [he, bytesLt_irrefl] at h; cases h) (sortHashes_sorted_local _)
+
+/-- the three cases of `transaction_args` for the deps of a non-isolated transaction -/
+theorem localDeps_cases (d : Doc) (actor : Bytes) :
+    ((d.applied.filter (fun c => c.actor == actor)).getLast? = none ∧ d.localDeps actor = d.heads) ∨
+    ∃ last, (d.applied.filter (fun c => c.actor == actor)).getLast? = some last ∧
+      ((last.hash ∈ d.heads ∧ d.localDeps actor = d.heads) ∨
+       (last.hash ∉ d.heads ∧ d.localDeps actor = d.heads ++ [last.hash])) := by
+  unfold Doc.localDeps
+  cases hg : (d.applied.filter (fun c => c.actor == actor)).getLast? with
+  | none => exact .inl ⟨rfl, rfl⟩
+  | some last =>
+    right
+    refine ⟨last, rfl, ?_⟩
+    by_cases hm : last.hash ∈ d.heads
+    · left; exact ⟨hm, by simp [hm]⟩
+    · right; exact ⟨hm, by simp [hm]⟩
+
+theorem mem_localDeps {d : Doc} {actor : Bytes} {h : Hash} :
+    h ∈ d.localDeps actor ↔
+      h ∈ d.heads ∨ ∃ last, (d.applied.filter (fun c => c.actor == actor)).getLast? = some last ∧ h = last.hash := by
+  rcases localDeps_cases d actor with ⟨hg, he⟩ | ⟨last, hg, ⟨hm, he⟩ | ⟨hm, he⟩⟩
+  · rw [he, hg]; simp
+  · rw [he, hg]
+    constructor
+    · exact fun h => .inl h
+    · rintro (h | ⟨l, hl, rfl⟩)
+      · exact h
+      · cases hl; exact hm
+  · rw [he, hg]
+    simp only [List.mem_append, List.mem_singleton, Option.some.injEq]
+    constructor
+    · rintro (h | rfl)
+      · exact .inl h
+      · exact .inr ⟨last, rfl, rfl⟩
+    · rintro (h | ⟨l, rfl, rfl⟩)
+      · exact .inl h
+      · exact .inr rfl
+
+theorem localDeps_nodup (d : Doc) (actor : Bytes) : (d.localDeps actor).Nodup := by
+  rcases localDeps_cases d actor with ⟨_, he⟩ | ⟨last, _, ⟨_, he⟩ | ⟨hm, he⟩⟩
+  · rw [he]; exact heads_nodup d
+  · rw [he]; exact heads_nodup d
+  · rw [he, List.nodup_append]
+    refine ⟨heads_nodup d, (by simp), ?_⟩
+    intro a ha b hb
+    have : b = last.hash := by simpa using hb
+    subst this
+    intro hab; exact hm (hab ▸ ha)
+
+
+/-- the C03 freshness hypothesis follows from the numbering: every op the call sees has an id
+    below the transaction's next id -/
+theorem TxRun.ids_lt_next {e : Enc} {d : Doc} {actor : Bytes} {t : Tx}
+    (hn : ∀ c ∈ d.applied, OpsNumbered c) (h : TxRun e d.ops (d.beginTx actor) t) :
+    ∀ x ∈ d.ops ++ t.pending, x.id.lt t.nextId = true := by
+  obtain ⟨_, hs, hnum⟩ := h.numbered (Numbered.nil _ _)
+  intro x hx
+  have hlt : x.id.ctr < t.startOp + t.pending.length := by
+    rcases List.mem_append.mp hx with hx | hx
+    · have := beginTx_startOp_gt_of_numbered d actor hn x hx
+      rw [hs]; omega
+    · exact (hnum.mem hx).2.2
+  have : t.nextId = ⟨t.startOp + t.pending.length + 0, t.actor⟩ := rfl
+  rw [this]
+  simp only [OpId.lt, Bool.or_eq_true, decide_eq_true_eq]
+  left; omega
+
+
+/-! ## §7 list / text elements: update, delete, increment -/
+
+theorem seekByIndex_some_mem {e : Enc} {isText : Bool} {regs : List (OpId × List Op)} {i st : Nat}
+    {id : OpId} {r : List Op} {s : Nat} (h : seekByIndex e isText regs i st = some (id, r, s)) :
+    (id, r) ∈ regs := by
+  induction regs generalizing st with
+  | nil => cases h
+  | cons p regs ih =>
+    obtain ⟨id', r'⟩ := p
+    rw [seekByIndex_cons] at h
+    split at h
+    · cases h; exact List.mem_cons_self
+    · exact List.mem_cons_of_mem _ (ih h)
+
+theorem mem_seqRegs {ops : List Op} {obj : ObjId} {id : OpId} {r : List Op} (h : (id, r) ∈ seqRegs ops obj) :
+    ∃ c ∈ rgaOrder ops obj, c.isMark = false ∧ c.id = id ∧ r = elemRegOps ops obj id ∧ r ≠ [] := by
+  unfold seqRegs at h
+  rw [List.mem_filterMap] at h
+  obtain ⟨c, hc, hh⟩ := h
+  refine ⟨c, hc, ?_⟩
+  cases hm : c.isMark
+  · simp only [hm, Bool.false_eq_true, if_false] at hh
+    split at hh
+    · cases hh
+    · rename_i hne
+      simp only [Option.some.injEq, Prod.mk.injEq] at hh
+      obtain ⟨rfl, rfl⟩ := hh
+      exact ⟨rfl, rfl, rfl, fun h0 => hne h0⟩
+  · simp [hm] at hh
+
+/-- what a successful single-op indexed call produced: an op on the element found at the index -/
+theorem localPut_list_shape {e : Enc} {ops : List Op} {t : Tx} {obj : ObjId} {i : Nat} {a : Action}
+    {ck : Bool} {o : Op} (h : localPut e ops t obj (.inr i) a ck = .ok [o]) :
+    ∃ ty el st act preds, objType ops obj = some ty ∧ isSeq ty = true ∧
+      seekByIndex e (ty == .text) (seqRegs ops obj) i 0 = some (el, elemRegOps ops obj el, st) ∧
+      elemRegOps ops obj el ≠ [] ∧
+      o = mkElemOp t obj el act preds ∧ (∀ p ∈ preds, p ∈ elemRegOps ops obj el) ∧
+      ((act = a ∧ preds = elemRegOps ops obj el) ∨
+       (∃ v last, a = .put v ∧ act = .del ∧ preds = (elemRegOps ops obj el).dropLast ∧
+          (elemRegOps ops obj el).getLast? = some last ∧ putEqLast ops last v = true ∧
+          elemRegOps ops obj el ≠ [last])) := by
+  cases hty : objType ops obj with
+  | none => rw [localPut_of_none hty] at h; cases h
+  | some ty =>
+    rw [localPut_of_type hty] at h
+    simp only at h
+    split at h
+    · cases h
+    · rw [localListOp_eq] at h
+      cases hs : isSeq ty
+      · simp [hs] at h
+      · simp only [hs, Bool.not_true, Bool.false_eq_true, if_false] at h
+        cases hk : seekByIndex e (ty == .text) (seqRegs ops obj) i 0 with
+        | none => rw [hk] at h; cases h
+        | some r =>
+          obtain ⟨el, reg, st⟩ := r
+          rw [hk] at h
+          simp only at h
+          obtain ⟨c, _, _, _, rfl, hne⟩ := mem_seqRegs (seekByIndex_some_mem hk)
+          obtain ⟨act, preds, rfl, hsub, hc⟩ := emitOp_ok_singleton h
+          exact ⟨ty, el, st, act, preds, rfl, hs, hk, hne, rfl, hsub, hc⟩
+
+
+section
+variable {e : Enc} {ops : List Op} {t : Tx} {obj : ObjId} {i : Nat} {ck : Bool} {o : Op} {el : OpId}
+
+theorem localPut_list_txOp {a : Action} (hs : StrictIds ops) (hlt : ∀ x ∈ ops, x.id.lt t.nextId = true)
+    (hnp : ∀ x ∈ ops, t.nextId ∉ x.pred) (h : localPut e ops t obj (.inr i) a ck = .ok [o])
+    (hk : o.key = .elem el) :
+    TxOp ops o (elemSel obj el) ∧ o.id = t.nextId ∧ o.obj = obj ∧ o.insert = false := by
+  obtain ⟨_, el', _, act, preds, _, _, _, _, rfl, hsub, _⟩ := localPut_list_shape h
+  cases hk
+  exact ⟨txOp_mkElemOp hs hlt hnp hsub, rfl, rfl, rfl⟩
+
+/-- put / put_object on a list element: the element holds exactly the new value -/
+theorem list_value_effect {a : Action} (hs : StrictIds ops) (hlt : ∀ x ∈ ops, x.id.lt t.nextId = true)
+    (hnp : ∀ x ∈ ops, t.nextId ∉ x.pred) (h : localPut e ops t obj (.inr i) a ck = .ok [o])
+    (hk : o.key = .elem el) (hv : o.isValue = true) :
+    elemRegister (ops ++ [o]) obj el = [⟨t.nextId, Val.ofAction a⟩] := by
+  obtain ⟨_, el', _, act, preds, _, _, _, _, rfl, hsub, hc⟩ := localPut_list_shape h
+  cases hk
+  have htx := txOp_mkElemOp (act := act) hs hlt hnp hsub
+  rcases hc with ⟨rfl, rfl⟩ | ⟨v, last, rfl, rfl, _⟩
+  · rw [elemRegister_eq]
+    refine (htx.overwrite_all (by simp [elemSel, mkElemOp, Op.elem]) hv ?_).2
+    intro x hx
+    exact List.mem_map.mpr ⟨x, hx, rfl⟩
+  · simp [mkElemOp, Op.isValue] at hv
+
+/-- put equal to the winner of a conflicted element: the losers are deleted, the winner stays -/
+theorem list_put_conflict_effect {v : Scalar} (hs : StrictIds ops) (hlt : ∀ x ∈ ops, x.id.lt t.nextId = true)
+    (hnp : ∀ x ∈ ops, t.nextId ∉ x.pred) (h : localPut e ops t obj (.inr i) (.put v) ck = .ok [o])
+    (hk : o.key = .elem el) (ha : o.action = .del) :
+    ∃ w, (elemRegister ops obj el).getLast? = some w ∧ w.val = Val.ofScalar v ∧
+      2 ≤ (elemRegister ops obj el).length ∧ elemRegister (ops ++ [o]) obj el = [w] := by
+  obtain ⟨_, el', _, act, preds, _, _, _, _, rfl, hsub, hc⟩ := localPut_list_shape h
+  cases hk
+  have htx := txOp_mkElemOp (act := act) hs hlt hnp hsub
+  rcases hc with ⟨rfl, rfl⟩ | ⟨v', last, hv', rfl, rfl, hg, heq, hne⟩
+  · simp [mkElemOp] at ha
+  · cases hv'
+    have hreg : elemRegOps ops obj el = (elemRegOps ops obj el).dropLast ++ [last] := by
+      have hnn : elemRegOps ops obj el ≠ [] := by intro h0; rw [h0] at hg; cases hg
+      have := List.dropLast_concat_getLast hnn
+      rw [List.getLast?_eq_some_getLast hnn] at hg
+      cases hg
+      exact this.symm
+    have hlv : last.isValue = true :=
+      isValue_of_mem_regOps (sel := elemSel obj el) (by rw [← elemRegOps_eq, hreg]; simp)
+    refine ⟨entryOf ops last, ?_, (putEqLast_iff hlv).mp heq, ?_, ?_⟩
+    · rw [elemRegister_eq, ← elemRegOps_eq, List.getLast?_map, hg]; rfl
+    · rw [elemRegister_eq, ← elemRegOps_eq, List.length_map]
+      rw [hreg] at hne ⊢
+      cases hd : (elemRegOps ops obj el).dropLast with
+      | nil => rw [hd] at hne; exact absurd rfl hne
+      | cons _ _ => simp
+    · rw [elemRegister_eq]
+      exact (htx.delete_losers (by simp [mkElemOp, Op.isValue]) (by simp [mkElemOp, Op.isInc])
+        (by rw [← elemRegOps_eq]; exact hreg) rfl).2
+
+/-- delete of a list element: its register becomes empty -/
+theorem list_delete_effect (hs : StrictIds ops) (hlt : ∀ x ∈ ops, x.id.lt t.nextId = true)
+    (hnp : ∀ x ∈ ops, t.nextId ∉ x.pred) (h : localPut e ops t obj (.inr i) .del ck = .ok [o])
+    (hk : o.key = .elem el) :
+    elemRegister (ops ++ [o]) obj el = [] := by
+  obtain ⟨_, el', _, act, preds, _, _, _, _, rfl, hsub, hc⟩ := localPut_list_shape h
+  cases hk
+  have htx := txOp_mkElemOp (act := act) hs hlt hnp hsub
+  rcases hc with ⟨rfl, rfl⟩ | ⟨v, last, hv, _⟩
+  · rw [elemRegister_eq, htx.delete_all (by simp [mkElemOp, Op.isValue]) (by simp [mkElemOp, Op.isInc])]
+    · rfl
+    · intro x hx; exact List.mem_map.mpr ⟨x, hx, rfl⟩
+  · cases hv
+
+/-- increment of a list element: its counters grow by `n`, other values leave -/
+theorem list_increment_effect {n : Int} (hs : StrictIds ops) (hlt : ∀ x ∈ ops, x.id.lt t.nextId = true)
+    (hnp : ∀ x ∈ ops, t.nextId ∉ x.pred) (h : localPut e ops t obj (.inr i) (.inc n) ck = .ok [o])
+    (hk : o.key = .elem el) :
+    elemRegister (ops ++ [o]) obj el = (elemRegister ops obj el).filterMap (Entry.bump n) := by
+  obtain ⟨_, el', _, act, preds, _, _, _, _, rfl, hsub, hc⟩ := localPut_list_shape h
+  cases hk
+  have htx := txOp_mkElemOp (act := act) hs hlt hnp hsub
+  rcases hc with ⟨rfl, rfl⟩ | ⟨v, last, hv, _⟩
+  · have hall : ∀ x ∈ regOps ops (elemSel obj el), x.id ∈ (mkElemOp t obj el (.inc n) (elemRegOps ops obj el)).pred :=
+      fun x hx => List.mem_map.mpr ⟨x, hx, rfl⟩
+    rw [elemRegister_eq, elemRegister_eq, htx.increment_all (by simp [mkElemOp, Op.isInc]) hall,
+      map_filter_eq_filterMap, List.filterMap_map]
+    apply filterMap_congr'
+    intro x hx
+    exact bump_entryOf (by simp [mkElemOp]) (hall x hx)
+  · cases hv
+
+end
+
+
+section
+variable {ops : List Op} {o : Op} {obj : ObjId} {el : OpId}
+
+theorem elem_of_noninsert {o : Op} {el : OpId} (hk : o.key = .elem el) (hi : o.insert = false) :
+    o.elem = some el := by
+  simp [Op.elem, hk, hi]
+
+/-- an op on a list element leaves every other element register alone -/
+theorem TxOp.elem_other_elemRegister (h : TxOp ops o (elemSel obj el)) (ho : o.obj = obj)
+    (hk : o.key = .elem el) (hi : o.insert = false) {obj' : ObjId} {el' : OpId} (hne : obj' ≠ obj ∨ el' ≠ el) :
+    elemRegister (ops ++ [o]) obj' el' = elemRegister ops obj' el' := by
+  rw [elemRegister_eq, elemRegister_eq]
+  apply h.other_register
+  · intro x _ h1 h2
+    simp only [elemSel, Bool.and_eq_true, beq_iff_eq] at h1 h2
+    rcases hne with hne | hne
+    · exact hne (h2.1.symm.trans h1.1)
+    · have := h2.2.symm.trans h1.2
+      exact hne (Option.some.inj this)
+  · simp only [elemSel, ho, elem_of_noninsert hk hi, Bool.and_eq_false_iff, beq_eq_false_iff_ne, ne_eq]
+    rcases hne with hne | hne
+    · exact .inl (fun h => hne h.symm)
+    · exact .inr (fun h => hne (Option.some.inj h).symm)
+
+/-- … and the map registers and key sets of every other object -/
+theorem TxOp.elem_other_mapRegister (h : TxOp ops o (elemSel obj el)) (ho : o.obj = obj)
+    {obj' : ObjId} (k' : Bytes) (hne : obj' ≠ obj) :
+    mapRegister (ops ++ [o]) obj' k' = mapRegister ops obj' k' := by
+  rw [mapRegister_eq, mapRegister_eq]
+  apply h.other_register
+  · intro x _ h1 h2
+    simp only [mapSel, elemSel, Bool.and_eq_true, beq_iff_eq] at h1 h2
+    exact hne (h2.1.symm.trans h1.1)
+  · simp only [mapSel, ho, Bool.and_eq_false_iff, beq_eq_false_iff_ne, ne_eq]
+    exact .inl (fun h => hne h.symm)
+
+theorem TxOp.elem_other_keys (h : TxOp ops o (elemSel obj el)) (ho : o.obj = obj)
+    {obj' : ObjId} (hne : obj' ≠ obj) : mapKeys (ops ++ [o]) obj' = mapKeys ops obj' :=
+  mapKeys_eq_of_register_iff (fun k' => by rw [h.elem_other_mapRegister ho k' hne])
+
+end
+
+/-- if the order is unchanged and only element `el` (visible before) has a new register, the
+    visible element list changes at `el` only: its entry is replaced, or dropped when the new
+    register is empty -/
+theorem seqElems_replace {ops ops' : List Op} {obj : ObjId} {el : OpId}
+    (ho : rgaOrder ops' obj = rgaOrder ops obj)
+    (hr : ∀ el', el' ≠ el → elemRegister ops' obj el' = elemRegister ops obj el')
+    (hold : elemRegister ops obj el ≠ []) :
+    seqElems ops' obj = (seqElems ops obj).filterMap (fun p =>
+      if p.1 = el then (match elemRegister ops' obj el with | [] => none | r => some (el, r)) else some p) := by
+  unfold seqElems
+  rw [ho, List.filterMap_filterMap]
+  apply filterMap_congr'
+  intro c _
+  cases hm : c.isMark
+  · simp only [Bool.false_eq_true, if_false]
+    by_cases hc : c.id = el
+    · rw [hc]
+      cases hreg : elemRegister ops obj el with
+      | nil => exact absurd hreg hold
+      | cons x xs =>
+        simp
+        cases elemRegister ops' obj el <;> rfl
+    · rw [hr c.id hc]
+      cases hreg : elemRegister ops obj c.id with
+      | nil => simp
+      | cons x xs => simp [hc]
+  · simp
+
+
+/-! ## §8 RGA: inserting an element -/
+
+/-- `l` with `o` put immediately after every element whose id is the reference `ref` names -/
+def insAfter (ref : Key) (o : Op) (l : List Op) : List Op :=
+  l.flatMap (fun c => c :: (if Key.elem c.id = ref then [o] else []))
+
+theorem insAfter_nil (ref : Key) (o : Op) : insAfter ref o [] = [] := rfl
+
+theorem insAfter_cons (ref : Key) (o c : Op) (l : List Op) :
+    insAfter ref o (c :: l) = c :: ((if Key.elem c.id = ref then [o] else []) ++ insAfter ref o l) := by
+  simp [insAfter]
+
+theorem insAfter_append (ref : Key) (o : Op) (l₁ l₂ : List Op) :
+    insAfter ref o (l₁ ++ l₂) = insAfter ref o l₁ ++ insAfter ref o l₂ := by
+  simp [insAfter]
+
+theorem insAfter_flatMap {α : Type} (ref : Key) (o : Op) (l : List α) (g : α → List Op) :
+    insAfter ref o (l.flatMap g) = l.flatMap (fun a => insAfter ref o (g a)) := by
+  unfold insAfter
+  rw [List.flatMap_assoc]
+
+theorem insAfter_head (o : Op) (l : List Op) : insAfter .head o l = l := by
+  simp [insAfter]
+
+theorem children_append_insert {ops : List Op} {o : Op} (hlt : ∀ x ∈ ops, x.id.lt o.id = true)
+    (obj : ObjId) (p : Key) :
+    children (ops ++ [o]) obj p =
+      (if (o.obj == obj && o.insert && o.key == p) = true then [o] else []) ++ children ops obj p := by
+  unfold children
+  rw [filter_append_singleton]
+  split
+  · rw [sortById_append_last (fun x hx => hlt x (List.mem_filter.mp hx).1)]
+    simp
+  · simp
+
+theorem rgaFrom_no_children {ops : List Op} {obj : ObjId} {p : Key}
+    (h : ∀ x ∈ ops, x.insert = true → x.key ≠ p) :
+    ∀ f, rgaFrom ops obj f p = []
+  | 0 => rfl
+  | f + 1 => by
+    have : children ops obj p = [] := by
+      unfold children
+      have : ops.filter (fun o => o.obj == obj && o.insert && o.key == p) = [] := by
+        rw [List.filter_eq_nil_iff]
+        intro x hx
+        by_cases hi : x.insert = true
+        · simp [h x hx hi]
+        · simp [hi]
+      rw [this]; rfl
+    rw [rgaFrom_succ, this]; rfl
+
+/-- **RGA insertion.**  Appending an insert op `o` with the greatest id, which nobody references
+    yet: every walk is the old walk with `o` spliced in immediately after its reference element
+    (at the front of the walk from `o.key` itself). -/
+theorem rgaFrom_insert {ops : List Op} {o : Op} {obj : ObjId} (hlt : ∀ x ∈ ops, x.id.lt o.id = true)
+    (hr : RefsSmaller (ops ++ [o])) (hnr : ∀ x ∈ ops ++ [o], x.insert = true → x.key ≠ .elem o.id)
+    (hi : o.insert = true) (ho : o.obj = obj) :
+    ∀ (f : Nat) (p : Key), above (ops ++ [o]) p < f →
+      rgaFrom (ops ++ [o]) obj f p =
+        (if p = o.key then [o] else []) ++ insAfter o.key o (rgaFrom ops obj f p)
+  | 0, _, hf => by omega
+  | f + 1, p, hf => by
+    rw [rgaFrom_succ, rgaFrom_succ, children_append_insert hlt, List.flatMap_append, insAfter_flatMap]
+    have hcond : ((o.obj == obj && o.insert && o.key == p) = true) ↔ p = o.key := by
+      simp only [ho, hi, beq_self_eq_true, Bool.and_self, Bool.true_and, beq_iff_eq]
+      exact eq_comm
+    congr 1
+    · by_cases hp : p = o.key
+      · rw [if_pos (hcond.mpr hp), if_pos hp]
+        simp [rgaFrom_no_children hnr f]
+      · rw [if_neg (fun h => hp (hcond.mp h)), if_neg hp]; rfl
+    · apply flatMap_congr'
+      intro c hc
+      have hc' : c ∈ children (ops ++ [o]) obj p := by
+        rw [children_append_insert hlt]
+        exact List.mem_append_right _ hc
+      have := above_child hr hc'
+      rw [rgaFrom_insert hlt hr hnr hi ho f (.elem c.id) (by omega), insAfter_cons]
+
+
+theorem mem_rgaFrom {ops : List Op} {obj : ObjId} {x : Op} :
+    ∀ {f : Nat} {p : Key}, x ∈ rgaFrom ops obj f p → x ∈ ops ∧ x.obj = obj ∧ x.insert = true
+  | 0, _, h => by cases h
+  | f + 1, p, h => by
+    rw [rgaFrom_succ, List.mem_flatMap] at h
+    obtain ⟨c, hc, hx⟩ := h
+    rcases List.mem_cons.mp hx with rfl | hx
+    · obtain ⟨h1, h2, h3, _⟩ := mem_children.mp hc
+      exact ⟨h1, h2, h3⟩
+    · exact mem_rgaFrom hx
+
+theorem refsSmaller_append {ops : List Op} {o : Op} (hr : RefsSmaller ops)
+    (ho : o.insert = true → (match o.key with | .elem e => e.lt o.id | _ => true) = true) :
+    RefsSmaller (ops ++ [o]) := by
+  intro x hx hi
+  rcases List.mem_append.mp hx with hx | hx
+  · exact hr x hx hi
+  · have : x = o := by simpa using hx
+    subst this; exact ho hi
+
+/-- nobody can reference the greatest id -/
+theorem no_ref_to_greatest {ops : List Op} {o : Op} (hlt : ∀ x ∈ ops, x.id.lt o.id = true)
+    (hr : RefsSmaller (ops ++ [o])) : ∀ x ∈ ops ++ [o], x.insert = true → x.key ≠ .elem o.id := by
+  intro x hx hi hk
+  have h1 := hr.lt hx hi hk
+  rcases List.mem_append.mp hx with hx | hx
+  · exact OpId.lt_asymm h1 (hlt x hx)
+  · have : x = o := by simpa using hx
+    subst this
+    rw [OpId.lt_irrefl] at h1; cases h1
+
+/-- the element order after an insert: the old order with the new element immediately after its
+    reference element, or in front for HEAD -/
+theorem rgaOrder_insert {ops : List Op} {o : Op} (hlt : ∀ x ∈ ops, x.id.lt o.id = true)
+    (hr : RefsSmaller ops) (hr' : RefsSmaller (ops ++ [o])) (hi : o.insert = true) :
+    rgaOrder (ops ++ [o]) o.obj =
+      (if o.key = .head then [o] else []) ++ insAfter o.key o (rgaOrder ops o.obj) := by
+  unfold rgaOrder
+  rw [rgaFrom_insert hlt hr' (no_ref_to_greatest hlt hr') hi rfl _ .head (by simp [above])]
+  have : rgaFrom ops o.obj ((ops ++ [o]).length + 1) .head = rgaFrom ops o.obj (ops.length + 1) .head :=
+    rgaOrder_eq_fuel hr o.obj (by simp)
+  rw [this]
+  by_cases h : o.key = .head
+  · rw [if_pos h, if_pos h.symm]
+  · rw [if_neg h, if_neg (fun hh => h hh.symm)]
+
+/-- … and the order of every other object is untouched -/
+theorem rgaOrder_insert_other {ops : List Op} {o : Op} (hlt : ∀ x ∈ ops, x.id.lt o.id = true)
+    (hr : RefsSmaller ops) {obj' : ObjId} (hne : obj' ≠ o.obj) :
+    rgaOrder (ops ++ [o]) obj' = rgaOrder ops obj' := by
+  have hch : ∀ p, children (ops ++ [o]) obj' p = children ops obj' p := by
+    intro p
+    rw [children_append_insert hlt]
+    have : (o.obj == obj' && o.insert && o.key == p) = false := by
+      have : (o.obj == obj') = false := by simp; exact fun h => hne h.symm
+      simp [this]
+    simp [this]
+  have hall : ∀ f p, rgaFrom (ops ++ [o]) obj' f p = rgaFrom ops obj' f p := by
+    intro f
+    induction f with
+    | zero => intro p; rfl
+    | succ f ih =>
+      intro p
+      rw [rgaFrom_succ, rgaFrom_succ, hch]
+      apply flatMap_congr'
+      intro c _
+      rw [ih]
+  unfold rgaOrder
+  rw [hall]
+  exact rgaOrder_eq_fuel hr obj' (by simp)
+
+
+/-! ### registers after an insert -/
+
+section
+variable {ops : List Op} {o : Op}
+
+theorem register_append_nopred (hp : o.pred = []) {sel : Op → Bool}
+    (ho : (sel o && visible (ops ++ [o]) o) = false) :
+    (regOps (ops ++ [o]) sel).map (entryOf (ops ++ [o])) = (regOps ops sel).map (entryOf ops) :=
+  register_append_other (fun _ _ _ => by rw [hp]; exact List.not_mem_nil) ho
+
+/-- an insert op (no predecessors) leaves every map register alone -/
+theorem insert_mapRegister (hp : o.pred = []) (hk : ∀ k, o.key ≠ .map k) (obj' : ObjId) (k' : Bytes) :
+    mapRegister (ops ++ [o]) obj' k' = mapRegister ops obj' k' := by
+  rw [mapRegister_eq, mapRegister_eq]
+  apply register_append_nopred hp
+  have : mapSel obj' k' o = false := by
+    simp only [mapSel, Bool.and_eq_false_iff, beq_eq_false_iff_ne, ne_eq]
+    exact .inr (hk k')
+  simp [this]
+
+theorem insert_mapKeys (hp : o.pred = []) (hk : ∀ k, o.key ≠ .map k) (obj' : ObjId) :
+    mapKeys (ops ++ [o]) obj' = mapKeys ops obj' :=
+  mapKeys_eq_of_register_iff (fun k' => by rw [insert_mapRegister hp hk])
+
+/-- … and every element register but its own -/
+theorem insert_elemRegister_other (hp : o.pred = []) (hi : o.insert = true) {obj' : ObjId} {el' : OpId}
+    (hne : obj' ≠ o.obj ∨ el' ≠ o.id) :
+    elemRegister (ops ++ [o]) obj' el' = elemRegister ops obj' el' := by
+  rw [elemRegister_eq, elemRegister_eq]
+  apply register_append_nopred hp
+  have : elemSel obj' el' o = false := by
+    simp only [elemSel, Op.elem, hi, if_true, Bool.and_eq_false_iff, beq_eq_false_iff_ne, ne_eq]
+    rcases hne with hne | hne
+    · exact .inl (fun h => hne h.symm)
+    · exact .inr (fun h => hne (Option.some.inj h).symm)
+  simp [this]
+
+/-- the new element holds exactly the inserted value -/
+theorem insert_elemRegister_new (hs : StrictIds ops) (hlt : ∀ x ∈ ops, x.id.lt o.id = true)
+    (hnp : ∀ x ∈ ops, o.id ∉ x.pred) (hnk : ∀ x ∈ ops, x.key ≠ .elem o.id)
+    (hp : o.pred = []) (hi : o.insert = true) (hv : o.isValue = true) :
+    elemRegister (ops ++ [o]) o.obj o.id = [⟨o.id, Val.ofAction o.action⟩] := by
+  have hself : o.id ∉ o.pred := by rw [hp]; exact List.not_mem_nil
+  have hvis : visible (ops ++ [o]) o = true := by rw [visible_fresh hnp hself, hv]
+  have hsel : elemSel o.obj o.id o = true := by simp [elemSel, Op.elem, hi]
+  have hold : regOps ops (elemSel o.obj o.id) = [] := by
+    unfold regOps
+    have : ops.filter (fun x => elemSel o.obj o.id x && visible ops x) = [] := by
+      rw [List.filter_eq_nil_iff]
+      intro x hx
+      have : elemSel o.obj o.id x = false := by
+        simp only [elemSel, Op.elem, Bool.and_eq_false_iff, beq_eq_false_iff_ne, ne_eq]
+        right
+        by_cases hxi : x.insert = true
+        · simp only [hxi, if_true, Option.some.injEq]
+          intro he
+          have := hlt x hx
+          rw [he, OpId.lt_irrefl] at this; cases this
+        · simp only [hxi, Bool.false_eq_true, if_false]
+          have := hnk x hx
+          cases hkx : x.key with
+          | elem e => simp only [Option.some.injEq]; intro he; exact this (by rw [hkx, he])
+          | _ => simp
+      simp [this]
+    rw [this]; rfl
+  rw [elemRegister_eq, regOps_append_value hs hlt hsel hvis, hold]
+  simp [entryOf_fresh hnp hself]
+
+end
+
+
+/-! ### the visible element list after an insert -/
+
+/-- what `seqElems` lists for one element of the order -/
+def elemEntry (ops : List Op) (obj : ObjId) (c : Op) : Option (OpId × List Entry) :=
+  if c.isMark then none else
+  match elemRegister ops obj c.id with
+  | [] => none
+  | r => some (c.id, r)
+
+theorem seqElems_eq_filterMap (ops : List Op) (obj : ObjId) :
+    seqElems ops obj = (rgaOrder ops obj).filterMap (elemEntry ops obj) := rfl
+
+theorem elemEntry_fst {ops : List Op} {obj : ObjId} {c : Op} {p : OpId × List Entry}
+    (h : elemEntry ops obj c = some p) : p.1 = c.id := by
+  unfold elemEntry at h
+  split at h
+  · cases h
+  · split at h
+    · cases h
+    · cases h; rfl
+
+/-- a list of (id, value) pairs with `new` put immediately after every pair whose id `ref` names -/
+def insAfterE {α : Type} (ref : Key) (new : OpId × α) (l : List (OpId × α)) : List (OpId × α) :=
+  l.flatMap (fun p => p :: (if Key.elem p.1 = ref then [new] else []))
+
+theorem insAfterE_cons {α : Type} (ref : Key) (new p : OpId × α) (l : List (OpId × α)) :
+    insAfterE ref new (p :: l) = p :: ((if Key.elem p.1 = ref then [new] else []) ++ insAfterE ref new l) := by
+  simp [insAfterE]
+
+theorem filterMap_insAfter {ops ops' : List Op} {obj : ObjId} {o : Op} {new : OpId × List Entry}
+    (hnew : elemEntry ops' obj o = some new) :
+    ∀ (R : List Op),
+      (∀ c ∈ R, elemEntry ops' obj c = elemEntry ops obj c) →
+      (∀ c ∈ R, Key.elem c.id = o.key → elemEntry ops obj c ≠ none) →
+      (insAfter o.key o R).filterMap (elemEntry ops' obj) = insAfterE o.key new (R.filterMap (elemEntry ops obj))
+  | [], _, _ => rfl
+  | c :: R, h1, h2 => by
+    have ih := filterMap_insAfter hnew R (fun x hx => h1 x (List.mem_cons_of_mem _ hx))
+      (fun x hx => h2 x (List.mem_cons_of_mem _ hx))
+    rw [insAfter_cons, List.filterMap_cons, h1 c List.mem_cons_self, List.filterMap_append, ih]
+    cases hg : elemEntry ops obj c with
+    | none =>
+      have : Key.elem c.id ≠ o.key := fun hk => h2 c List.mem_cons_self hk hg
+      simp [hg, this]
+    | some p =>
+      have hp := elemEntry_fst hg
+      rw [List.filterMap_cons, hg, insAfterE_cons, hp]
+      by_cases hk : Key.elem c.id = o.key
+      · simp [hk, hnew]
+      · simp [hk]
+
+theorem seqElems_insert {ops : List Op} {o : Op} {new : OpId × List Entry}
+    (horder : rgaOrder (ops ++ [o]) o.obj =
+      (if o.key = .head then [o] else []) ++ insAfter o.key o (rgaOrder ops o.obj))
+    (hnew : elemEntry (ops ++ [o]) o.obj o = some new)
+    (hsame : ∀ c ∈ rgaOrder ops o.obj, elemEntry (ops ++ [o]) o.obj c = elemEntry ops o.obj c)
+    (href : ∀ c ∈ rgaOrder ops o.obj, Key.elem c.id = o.key → elemEntry ops o.obj c ≠ none) :
+    seqElems (ops ++ [o]) o.obj =
+      (if o.key = .head then [new] else []) ++ insAfterE o.key new (seqElems ops o.obj) := by
+  rw [seqElems_eq_filterMap, seqElems_eq_filterMap, horder, List.filterMap_append,
+    filterMap_insAfter hnew _ hsame href]
+  congr 1
+  split <;> simp [hnew]
 
 end AmVerif.Crdt
